@@ -1325,6 +1325,64 @@ Section WithCfg.
 
   Definition filter_fuel (f : dfilter_it) : nat := S (Z.to_nat (f_old f - f_pos f)).
 
+  (* ---- DrainFilter::next as it runs on the iterator OBJECT (slot i of `iters`), statement by statement
+     as in src/impl/drain_filter.rs: every `self.field` reads the object, every `self.field = x` writes it,
+     `self.pos += 1` is checked usize arithmetic, `(self.pred)(&mut val)` consumes one answer of the
+     script stored in the object and may unwind -- leaving `panicked` set (EquivFilter.v ties this to the
+     translated body; Proofs/FilterAt.v shows that on a well-formed iterator it is filter_next above
+     followed by storing the new iterator value; Run.v executes this one) ---- *)
+  Definition filter_of (i : nat) : M dfilter_it :=
+    it <- iter_get i ;; match it with IFilter f => ret f | _ => ub BadObject end.
+  Definition set_filter_panicked (i : nat) (b : bool) : M unit :=
+    f <- filter_of i ;; iter_set i (Some (IFilter (with_f f (f_new f) (f_pos f) b (f_pred f)))).
+  Definition set_filter_pos (i : nat) (p : Z) : M unit :=
+    f <- filter_of i ;; iter_set i (Some (IFilter (with_f f (f_new f) p (f_panicked f) (f_pred f)))).
+  Definition set_filter_new (i : nat) (n : Z) : M unit :=
+    f <- filter_of i ;; iter_set i (Some (IFilter (with_f f n (f_pos f) (f_panicked f) (f_pred f)))).
+  (* usize `a + b`: panics in a debug build, wraps in an optimized one (as Eval.arith) *)
+  Definition uadd (a b : Z) : M Z :=
+    let r := a + b in
+    if r <? W64 then ret r else if release cfg then ret (r - W64) else panic.
+  (* (self.pred)(&mut *p): one answer of the object's script *)
+  Definition filter_pred_at (i : nat) (p : eptr) : M bool :=
+    f <- filter_of i ;;
+    a <- slot_read p ;;
+    expose a ;;;
+    emit (EvCall "p" [a]) ;;;
+    let '(x, sc) := pop_script (f_pred f) A_F in
+    iter_set i (Some (IFilter (with_f f (f_new f) (f_pos f) (f_panicked f) sc))) ;;;
+    if x =? A_P then panic else ret (x =? A_T).
+
+  Fixpoint filter_next_at (fuel : nat) (i : nat) : M (option elem) :=
+    match fuel with
+    | O => fun s => (OutOfFuel, s)
+    | S fuel =>
+        f <- filter_of i ;;
+        if f_pos f <? f_old f then
+          d <- data (f_vec f) ;;
+          let val := padd d (f_pos f) in
+          set_filter_panicked i true ;;;
+          r <- filter_pred_at i val ;;
+          set_filter_panicked i false ;;;
+          if r then
+            f1 <- filter_of i ;;
+            p1 <- uadd (f_pos f1) 1 ;;
+            set_filter_pos i p1 ;;;
+            e <- slot_read val ;;
+            ret (Some e)
+          else
+            f1 <- filter_of i ;;
+            (if f_new f1 <? f_pos f1 then slot_copy_across val (padd d (f_new f1)) 1 else ret tt) ;;;
+            f2 <- filter_of i ;;
+            p2 <- uadd (f_pos f2) 1 ;;
+            set_filter_pos i p2 ;;;
+            f3 <- filter_of i ;;
+            n3 <- uadd (f_new f3) 1 ;;
+            set_filter_new i n3 ;;;
+            filter_next_at fuel i
+        else ret None
+    end.
+
   Definition filter_guard (f : dfilter_it) : M unit :=
     let num_remaining := f_old f - f_pos f in
     let num_drained := f_pos f - f_new f in
